@@ -6,7 +6,7 @@ CLAIMED = {
             'bounded symbolic execution of the real numpy code with z3 (operator-overloaded object arrays), '
             'inductive element step, solver models replayed on the float code',
             'Every SpectralInformation mutator and every element __call__ is executed symbolically from an arbitrary valid '
-            'state (all positive powers, all valid signal/ASE/NLI splits, k<=3 channels; 4 thorough) and z3 decides that the '
+            'state (all positive powers, all valid signal/ASE/NLI splits, k<=3 channels; 5 thorough) and z3 decides that the '
             'split invariant and the power bookkeeping hold on the post-state on every path; one inductive step covers '
             'histories of any length. The reported-ratio identity also with the ASE (or NLI) share exactly zero; after an amplifier '
             'call the input spectrum object still carries its own split (no aliasing); a constructed object holds exactly the shares it was '
@@ -18,7 +18,7 @@ CLAIMED = {
             'models replayed on the float code',
             'From an arbitrary valid state, one real element call (Roadm, Fused, Fiber with real NliSolver, every Edfa type_def); z3 '
             'decides GSNR/OSNR_ASE/SNR_NLI non-increase, equality for passive elements, ASE-only for amplifiers, NLI-only for fibres, '
-            'for all powers/splits/gains/losses within the bound (k<=3; 4 thorough). GGN methods with NLI computed on a subset of the '
+            'for all powers/splits/gains/losses within the bound (k<=3; 6 thorough). GGN methods with NLI computed on a subset of the '
             'channels: for arbitrary non-negative efficiencies of the computed channels (stub for the numerical integrals) the real '
             'compute_nli gives no channel a negative NLI; rebuilding a spectrum keeps every share however small.',
             'floats as reals; Raman off; flat amplifier profile; concrete fibre types; z3 and symx trusted',
@@ -30,14 +30,14 @@ CLAIMED = {
             'input powers: output = min(target*offset, input/loss) and never above input on all 2^k*2 paths; single-policy '
             'enforcement through network_from_json/RoadmParams/json_io.Roadm for every subset of keys; per-degree target '
             'population for every value of the node default.',
-            'floats as reals; k<=3 (4 thorough); fixed baud/slot mix; z3 and symx trusted',
+            'floats as reals; k<=3 (6 thorough); fixed baud/slot mix; z3 and symx trusted',
             'DESIGN.md §2 C06'),
     'C03': ('symx',
             'bounded symbolic execution of the real NliSolver analytic-GN code with z3; asinh/exp abstracted with exact '
             'rational-function congruence; polynomial identity against the published closed form; models replayed on the float code',
             'compute_nli/_gn_analytic/_psi with symbolic powers, baud rates, spacings and flat alpha/beta2(+-)/gamma/length equal '
             'eq. 120/123 of arXiv:1209.0394 entry by entry (SPM 16/27, XPM 32/27, asinh kernel, L_eff) for uniform and mixed combs, k<=3 '
-            '(4 thorough); cube law, eta independent of powers and of other channels, eta>=0 (=> NLI>=0, monotone in powers and under '
+            '(6 thorough); cube law, eta independent of powers and of other channels, eta>=0 (=> NLI>=0, monotone in powers and under '
             'adding a channel), independence of supply order; real Fiber objects incl. modify-and-recompute histories.',
             'floats as reals; analytic GN only (GGN outside); asinh/exp abstraction sound for unsat; fibre stub in the fully symbolic harness',
             'DESIGN.md §2 C03'),
